@@ -960,6 +960,7 @@ def _list_sort(it, a):
                 continue
             table[(i, j)] = sign(r)
     if len(it.out) != printed:
+        del it.out[printed:]
         raise Refuse('sort comparator with visible side effects (call order is unspecified)')
     if fails:
         if len(fails) != n * (n - 1):
